@@ -79,6 +79,8 @@ def library(w, contigs, method, n_target=None, defects=True, cells=None, dense=F
                         f['extra'] = {'kind': w.choice(['secondary', 'supplementary']), 'shift': w.randint(1, 20)}
                     if w.random() < 0.1 and f['defect'] is None and kind != 'plain':
                         f['clip'] = w.randint(1, 6)
+                    if w.random() < 0.1:
+                        f['r2cig'] = w.choice(['ins', 'del', 'splice', 'hard'])
                 frags.append(f)
             mol += 1
     frags = frags[:max(n_target, 0)] if n_target else []
